@@ -46,6 +46,16 @@ type Run struct {
 	Broken      []string // machinery failures (exit 2)
 	Explorer    []map[string]interface{}
 	Rule        string
+	devs        []Reject // deviations recorded by trace specifications
+}
+
+// TakeDevs returns and clears the recorded deviations.
+func (r *Run) TakeDevs() []Reject {
+	r.mu.Lock()
+	defer r.mu.Unlock()
+	d := r.devs
+	r.devs = nil
+	return d
 }
 
 // NewRun prepares a run with its scratch directory.
@@ -199,9 +209,27 @@ func (r *Run) Finish() int {
 		}
 	}
 	var unlisted []Violation
+	printed := map[string]bool{}
 	for _, v := range r.Violations {
+		var hit *Finding
 		if f, ok := known[v.Prop+"|"+v.Signature]; ok {
-			fmt.Printf("KNOWN-FINDING: property=%s %s [%s]\n", v.Prop, f.What, v.Signature)
+			hit = &f
+		} else {
+			// a listed signature may use * for one or more ':'-separated fields in front of a
+			// fixed context suffix (consequences of a known finding inside the same history)
+			for _, f := range known {
+				f := f
+				if f.Property == v.Prop && strings.Contains(f.Signature, "*") && globMatch(f.Signature, v.Signature) {
+					hit = &f
+					break
+				}
+			}
+		}
+		if hit != nil {
+			if !printed[hit.Signature] {
+				printed[hit.Signature] = true
+				fmt.Printf("KNOWN-FINDING: property=%s %s [%s]\n", v.Prop, hit.What, hit.Signature)
+			}
 			continue
 		}
 		unlisted = append(unlisted, v)
@@ -281,4 +309,41 @@ func (r *Run) SaveReplay(name string, data []byte) string {
 	p := filepath.Join(dir, fmt.Sprintf("%s-%s-seed%d-%s", r.Prop, r.Tier, r.Seed, name))
 	os.WriteFile(p, data, 0644)
 	return p
+}
+
+// ShortStack returns the innermost frames of the current goroutine that belong to go-txfile.
+func ShortStack() []string {
+	buf := make([]byte, 1<<16)
+	buf = buf[:runtime.Stack(buf, false)]
+	var out []string
+	for _, l := range strings.Split(string(buf), "\n") {
+		if strings.Contains(l, "/repo/") || strings.Contains(l, "go-txfile") {
+			out = append(out, strings.TrimSpace(l))
+		}
+		if len(out) >= 16 {
+			break
+		}
+	}
+	return out
+}
+
+// globMatch matches pattern (with * standing for any substring) against s.
+func globMatch(pattern, s string) bool {
+	parts := strings.Split(pattern, "*")
+	if !strings.HasPrefix(s, parts[0]) {
+		return false
+	}
+	s = s[len(parts[0]):]
+	for i := 1; i < len(parts); i++ {
+		p := parts[i]
+		if i == len(parts)-1 {
+			return strings.HasSuffix(s, p)
+		}
+		j := strings.Index(s, p)
+		if j < 0 {
+			return false
+		}
+		s = s[j+len(p):]
+	}
+	return true
 }
